@@ -1,5 +1,8 @@
 // TRUSTED PRELUDE: assumed specifications of std functions vstd does not cover.
-pub assume_specification [std::string::String::as_bytes] (_0: &std::string::String) -> &[u8];
+// bytes of a string (UTF-8), as an opaque function
+pub uninterp spec fn string_bytes(s: Seq<char>) -> Seq<u8>;
+pub assume_specification [std::string::String::as_bytes] (_0: &std::string::String) -> (r: &[u8])
+    ensures r@ == string_bytes(_0@);
 pub assume_specification<T> [<[T]>::to_vec] (s: &[T]) -> (r: std::vec::Vec<T>)
     where T: std::clone::Clone
     ensures r@ == s@;
